@@ -2,28 +2,29 @@ LIBS = ["libvpsc", "libavoid"]
 HARNESS = "harness/c01.cpp"
 DRIVER_MODE = "c01"
 LEAN_MODULES = ["AdaptaVerif.Props.C01"]
-LEVEL = "translation_validation"
-LEVEL_TEXT = ("Every output of the real solvers (vpsc::IncSolver, Avoid::IncSolver, vpsc::Solver) is judged by Lean "
-              "checkers with machine-checked soundness theorems (checkPost_sound; feasible_sound / infeasible_sound / "
-              "cycle_sum: a certified placement or a certified positive-gap cycle for every inequality-only system), "
-              "so a SPECFAIL is a proven violation of the property text on a concrete input. In addition a Rat model of "
-              "IncSolver has proved post-conditions (satisfy_post, solve_post, flag_complete: for all states/histories) "
-              "and is tied to the code by margin-guarded exact correspondence of positions, flags, active sets, "
-              "return values.")
-LEVEL_NOTE = ("Not claimed as 'proof': (a) the theorems about the solver are theorems about the hand-written Rat model; "
-              "the C++ is tied to it by sampled, margin-guarded correspondence only; (b) block_inv (active constraints "
-              "= tight spanning trees, over all solver steps) is proved preserved by the merge step only "
-              "(block_inv_merge_preserved_partial and the two pieces), not by split/splitBetween; the driver evaluates "
-              "the invariant (St.invOk, eqActive) on every model state after each call instead; consequently "
-              "'unflagged equalities hold exactly' is validated per run by checkPost (two-sided), not proved of the "
-              "model; (c) flag_sound (flagged => infeasible, inequality-only) is proved for the flagging step under the "
-              "invariant as hypothesis (flag_sound_path_partial) and validated per run on the real code through the "
-              "certified feasibility checker; (d) Check.feasible is proved sound for both answers and the spec-level "
-              "equivalence Feasible <-> no positive-gap cycle is proved in full, but that the certificate search "
-              "never answers 'unknown' is not proved (an 'unknown' is reported as a broken tie; none observed); "
-              "(e) the static Solver (mergeLeft/mergeRight/pairing heaps) is not modelled, only its outputs are "
-              "checked, and only on unscaled inequality DAGs in the default stream (two genuine defects of the static "
-              "solver - equalities ignored, scaled split - are kept in the separate 'findings' stream).")
+LEVEL = "proof"
+LEVEL_TEXT = ("Machine-checked (Lean 4, no sorry, axioms propext/Classical.choice/Quot.sound) for the incremental "
+              "solver's Rat model, over all histories of IncSolver(vs,cs) / addConstraint / change-desired / satisfy / "
+              "solve and all n, m, data: block_inv (active constraints of every block form a tight spanning tree: "
+              "theorem block_inv, preserved by merge, split, splitBetween, the satisfy loop, solve), satisfy_post / "
+              "solve_post (every unflagged constraint has slack >= ZERO_UPPERBOUND at the reported positions), eq_post "
+              "(every unflagged equality is active and holds exactly), flag_sound + flag_complete = "
+              "flagged_iff_infeasible for inequality-only systems up to the solver's tolerance, and "
+              "feasible_iff_no_pos_cycle (feasible <-> no positive-gap cycle, the property's parenthetical). "
+              "The checkers that judge every output of the real code (checkPost, Check.feasible with certificates) have "
+              "soundness theorems, so a SPECFAIL is a proven violation of the property text on a concrete input. "
+              "The model is tied to vpsc::IncSolver and Avoid::IncSolver by margin-guarded exact correspondence of "
+              "positions, flags, active sets, return values on ~7e3 (quick) / ~1.1e5 (thorough) cases per run.")
+LEVEL_NOTE = ("Scope of 'proof': the theorems are about the hand-written Rat model of IncSolver; the C++ is tied to it "
+              "by sampled correspondence (trusted base), and float rounding inside the solver is outside the model. "
+              "Partial correctness: the model's loops carry fuel; theorems are about normal returns (a run that "
+              "exhausts fuel is reported by the driver as a broken tie; none observed). Hypothesis of the history "
+              "theorems: constraints refer to existing variables and are not pre-flagged (Hist). eq_post assumes "
+              "non-zero scales. Not proved: that the certificate search of Check.feasible never answers 'unknown' "
+              "(both of its real answers are proved sound; an 'unknown' is reported; none observed). The static "
+              "Solver (mergeLeft/mergeRight/pairing heaps) is validator-only: not modelled, its outputs are judged "
+              "by the proven checkers on unscaled inequality DAGs; its two genuine defects (equalities ignored, "
+              "scaled split) are known findings watched by the 'findings' stream.")
 TECHNIQUE = ("Lean 4 theorems (certified Bellman-Ford feasibility checker, post-condition checker, Rat model of "
              "IncSolver with exit-scan post-condition and flag completeness) + correspondence harness on "
              "libvpsc and libavoid's private copy")
